@@ -1141,7 +1141,7 @@ fn diff_instance(
     // Edges (skeleton plane): map by EdgeId for stable diff independent of insertion order.
     let before_edges = edges_by_id(before);
     let after_edges = edges_by_id(after);
-    diff_edges(ops, warp_id, &before_edges, &after_edges);
+    diff_edges(ops, warp_id, after, &before_edges, &after_edges);
     diff_edge_attachments(
         ops,
         warp_id,
@@ -1151,6 +1151,19 @@ fn diff_instance(
         &after_edges,
         skip_attachment_ops,
     );
+}
+
+/// Returns `true` when the diff must emit `DeleteEdge` before the `UpsertEdge` of a changed
+/// edge record: the edge moved to another source bucket, or it was retargeted away from a
+/// node that no longer exists afterwards (node deletes replay before edge upserts, and a
+/// node with an incident edge cannot be deleted).
+fn edge_must_be_recreated(
+    after: &GraphStore,
+    rec_before: &EdgeRecord,
+    rec_after: &EdgeRecord,
+) -> bool {
+    rec_before.from != rec_after.from
+        || (rec_before.to != rec_after.to && !after.nodes.contains_key(&rec_before.to))
 }
 
 fn diff_nodes(
@@ -1227,6 +1240,7 @@ fn diff_node_attachments(
 fn diff_edges(
     ops: &mut Vec<WarpOp>,
     warp_id: WarpId,
+    after: &GraphStore,
     before_edges: &std::collections::BTreeMap<ContentHash, EdgeRecord>,
     after_edges: &std::collections::BTreeMap<ContentHash, EdgeRecord>,
 ) {
@@ -1252,7 +1266,7 @@ fn diff_edges(
                 if rec_before == rec_after {
                     continue;
                 }
-                if rec_before.from != rec_after.from {
+                if edge_must_be_recreated(after, rec_before, rec_after) {
                     ops.push(WarpOp::DeleteEdge {
                         warp_id,
                         from: rec_before.from,
@@ -1281,13 +1295,12 @@ fn diff_edge_attachments(
         let edge_id = EdgeId(*id);
         let before_val = before.edge_attachment(&edge_id);
         let after_val = after.edge_attachment(&edge_id);
-        // A same-id edge that moved to another source bucket is emitted by `diff_edges`
-        // as `DeleteEdge(old from)` + `UpsertEdge`; the delete's mini-cascade clears the
-        // edge attachment on replay, so an attachment that survives the move must be
-        // re-established even though its value did not change.
+        // An edge that `diff_edges` emits as `DeleteEdge` + `UpsertEdge` loses its
+        // attachment to the delete's mini-cascade on replay, so an attachment that
+        // survives must be re-established even though its value did not change.
         let reparented = before_edges
             .get(id)
-            .is_some_and(|rec_before| rec_before.from != rec_after.from);
+            .is_some_and(|rec_before| edge_must_be_recreated(after, rec_before, rec_after));
         if before_val == after_val && !(reparented && after_val.is_some()) {
             continue;
         }
